@@ -855,7 +855,12 @@ def yield_overflow_program(draw):
     reasons = draw(st.sampled_from([("outofspace",), None]))
     in_loop = draw(st.integers(0, 3)) == 0
     tr = ("try", reasons, (("append", "s0", pat),) + after, handler)
-    if in_loop:
+    if in_loop and draw(st.booleans()):
+        # the yield is the last thing in the loop body: control comes straight back to the append
+        one = ("re", ("set", (("r", 0x61, 0x68),), False), False)
+        tight = ("try", ("outofspace",), (("append", "s0", one),) + after[:2 if after[-1][0] == "yield" else 1], (("delete", "s0"),))
+        body = (("loop", None, (tight,)),)
+    elif in_loop:
         body = (("loop", None, (tr, ("match", ("lit", b",", "str")), ("delete", "s0"))),)
     else:
         body = (tr, ("match", ("lit", b".", "str")), ("hook", "h0"))
